@@ -82,6 +82,7 @@ func (u *Unit) execCall(st *State, instr ssa.Instruction, common *ssa.CallCommon
 		argTypes = append(argTypes, a.Type())
 	}
 	c, callee, name := u.calleeContract(common)
+	u.assertsAtCall(st, instr, name)
 	// closures: free variables are bound at the MakeClosure
 	var closure *ssa.MakeClosure
 	if mc, ok := common.Value.(*ssa.MakeClosure); ok {
@@ -102,6 +103,12 @@ func (u *Unit) execCall(st *State, instr ssa.Instruction, common *ssa.CallCommon
 	}
 	if c.Extern {
 		u.usedExternal[name] = true
+	} else if c.Trusted {
+		tf := ""
+		if c.TypeFrame {
+			tf = " (its `preserves` clause is checked by a type-reachability argument)"
+		}
+		u.usedExternal["trusted contract on /repo function "+name+": body not verified"+tf] = true
 	} else {
 		u.usedContracts[name] = true
 	}
@@ -219,14 +226,20 @@ func (u *Unit) applyContract(st *State, instr ssa.Instruction, c *Contract, name
 		st.assume(g)
 	}
 	u.lockEffects(st, c, name, args, pos)
-	pre := st.clone()
-	// frame of the callee
+	// frame of the callee (locations are evaluated in the pre-state, which st still is)
+	var pre *State
 	if !c.Pure {
+		// make sure every component the postconditions may read in the old state exists before the snapshot
+		pre = st.clone()
+		mark := len(pre.lines)
 		u.havocFrame(st, pre, c, name, bind, pos)
+		st.mergeLines(pre.lines[mark:])
 		u.advanceAlloc(st)
 	} else {
+		pre = st.clone()
 		u.advanceAlloc(st)
 	}
+	preMark := len(pre.lines)
 	var rs []Term
 	for i, t := range resTypes {
 		rs = append(rs, u.freshOf(st, fmt.Sprintf("r%d_%s", i, shortName(name)), t))
@@ -257,6 +270,11 @@ func (u *Unit) applyContract(st *State, instr ssa.Instruction, c *Contract, name
 		g := ctx.eval(e.Expr)
 		if len(lvs) > 0 && mentionsAny(g.S, lvs) {
 			g = mk(fmt.Sprintf("(forall (%s) %s)", strings.Join(lvs, " "), g.S), SBool)
+		}
+		// constants the old-state evaluation had to introduce belong to this path too
+		if len(pre.lines) > preMark {
+			st.mergeLines(pre.lines[preMark:])
+			preMark = len(pre.lines)
 		}
 		for _, s := range ctx.side {
 			st.assume(s)
@@ -619,7 +637,7 @@ func (u *Unit) execAppendStruct(st *State, instr ssa.Instruction, common *ssa.Ca
 	elemVal := u.gather(st, et, u.elemRef(et, u.val(st, al), intLit(0)))
 	elemVal = u.define(st, "elem", elemVal)
 	u.copyStructPrefix(st, et, ea, inplace, fresh, sb, so, sn, "")
-	u.frameAppend(st, "ea:"+ea, sb, inplace, intLit(1), instr.Pos())
+	u.frameAppend(st, "ea:"+corePkg(et), sb, inplace, intLit(1), instr.Pos())
 	u.scatter(st, et, u.elemRef(et, rb, add(ro, sn)), elemVal)
 	r := mkT(fmt.Sprintf("(mkslice %s %s %s %s)", rb.S, ro.S, need.S, rc.S), SSlice, instr.(ssa.Value).Type())
 	return u.define(st, instr.(ssa.Value).Name(), r)
@@ -695,3 +713,27 @@ func (u *Unit) runDefers(st *State) {
 }
 
 var _ = token.NoPos
+
+// assertsAtCall: checked hints `assert at call of F: expr` are proved where F is called and then assumed.
+func (u *Unit) assertsAtCall(st *State, instr ssa.Instruction, name string) {
+	if u.contract == nil {
+		return
+	}
+	for _, a := range u.contract.Asserts {
+		if !strings.HasPrefix(a.Where, "call of ") {
+			continue
+		}
+		want := strings.TrimSpace(strings.TrimPrefix(a.Where, "call of "))
+		if shortName(name) != want && !strings.HasSuffix(name, "."+want) && !strings.HasSuffix(name, ")."+want) {
+			continue
+		}
+		ctx := u.newCtx(st, u.entry)
+		u.bindLocals(ctx, st, instr.Block())
+		g := ctx.eval(a.Clause.Expr)
+		for _, s := range ctx.side {
+			st.assume(s)
+		}
+		u.oblige(st, "assert", instr.Pos(), g, a.Clause.Text, a.Clause.Tags)
+		st.assume(g)
+	}
+}
